@@ -12,3 +12,5 @@ for P in "$@"; do
   echo "SEED $N property=$P rc=$RC :: $(echo "$OUT" | grep -c '^VIOLATION') violations :: $(echo "$OUT" | grep '  tags=' | sed 's/ event=.*//' | sort | uniq -c | sort -rn | head -4 | tr '\n' ';') $(echo "$OUT" | tail -1)"
 done
 git -C /repo worktree remove --force $W
+# the per-worktree harness binary is of no further use
+H=$(echo -n "$W" | md5sum | cut -c1-8); rm -f /verif/bin/harness-$H /verif/bin/harness-$H.stamp /verif/bin/harness-$H.excluded /verif/bin/overlay-$H.json
